@@ -383,7 +383,7 @@ NOEV = "-noevents -skip files,stat,pos"
 
 REGISTRY = {
     "C01": {
-        "corr": lambda tier, seed: corr_engine("C01", tier, seed, "batches,merges,bigvals", 120, 3000, ops=40,
+        "corr": lambda tier, seed: corr_engine("C01", tier, seed, "batches,merges,bigvals,backups,hostilesome", 120, 3000, ops=40,
                                                dflags=NOEV, oracle_props=["C01", "C10"]),
         "assumptions": ["theorems are about the record-level engine model (coq/model/Engine.v, Script.v); its tie to db.go/batch.go/merge.go is the differential run of this check",
                         "index type and shard count are abstracted to one ordered map (C10/C14 treat the sharded index)",
